@@ -6,6 +6,7 @@ From Coq Require Import List Arith ZArith Lia Bool.
 From Coq Require String.
 From CPL Require Import Model.Base Model.Rules Model.Engine Model.Evolve1D Model.Memo1D.
 From CPL Require Import Proofs.Evolve1DProofs.
+From CPL Require Proofs.EngineProofs.
 Import ListNotations.
 
 (* ------------------------------------------------------------------ list helpers *)
@@ -189,11 +190,21 @@ Section Sim.
   Qed.
 End Sim.
 
-(* ------------------------------------------------------------------ pure rules *)
+(* ------------------------------------------------------------------ rules whose answer depends only on the contents *)
+(* `rule` is ANY state machine (counters, loggers, ...) whose returned value is determined by the
+   neighbourhood contents: it answers f.  Its state may evolve arbitrarily. *)
+Definition answers {St} (rule : rule1 St) (f : list Z -> Z) : Prop :=
+  forall s n c t, snd (rule s n c t) = f n.
+
+Lemma pure1_answers f : answers (pure1 f) f.
+Proof. intros s n c t. reflexivity. Qed.
+
 Section Pure.
+  Variable St : Type.
+  Variable rule : rule1 St.
   Variable f : list Z -> Z.
   Variable store : Z -> Z.
-  Local Notation rule := (pure1 f).
+  Hypothesis Hans : answers rule f.
 
   (* the row the unmemoised engine writes (C01: step_plain_pure) *)
   Definition next_row (cells : list Z) (r : nat) : list Z :=
@@ -212,24 +223,25 @@ Section Pure.
   Qed.
 
   (* ---------------------------------------------------------------- memoize=False, with the log *)
-  Lemma apply_all_logged_pure : forall nbs lg c t,
-    exists lg', apply_all (logged1 rule) store (tt, lg) c nbs t = ((tt, lg ++ lg'), map (fun n => store (f n)) nbs)
+  Lemma apply_all_logged_pure : forall nbs s lg c t,
+    exists s' lg', apply_all (logged1 rule) store (s, lg) c nbs t = ((s', lg ++ lg'), map (fun n => store (f n)) nbs)
                 /\ map call_key lg' = nbs.
   Proof.
-    induction nbs as [|n nbs IH]; intros lg c t.
-    - exists []. cbn [apply_all map]. rewrite app_nil_r. split; reflexivity.
-    - cbn [apply_all]. unfold logged1 at 1. cbn [pure1].
-      destruct (IH (lg ++ [(n, c, t)]) (S c) t) as (lg' & E & K). rewrite E.
-      exists ((n, c, t) :: lg'). cbn [map]. rewrite <- app_assoc. cbn [app]. split; [reflexivity|].
+    induction nbs as [|n nbs IH]; intros s lg c t.
+    - exists s, []. cbn [apply_all map]. rewrite app_nil_r. split; reflexivity.
+    - cbn [apply_all]. unfold logged1 at 1. pose proof (Hans s n c t) as Hv.
+      destruct (rule s n c t) as [s1 v]. cbn [snd] in Hv. subst v.
+      destruct (IH s1 (lg ++ [(n, c, t)]) (S c) t) as (s' & lg' & E & K). rewrite E.
+      exists s', ((n, c, t) :: lg'). cbn [map]. rewrite <- app_assoc. cbn [app]. split; [reflexivity|].
       unfold call_key at 1. cbn [fst]. rewrite K. reflexivity.
   Qed.
 
-  Lemma step_plain_logged_pure r lg cells t : 1 <= r <= length cells ->
-    exists lg', step_plain (logged1 rule) store r (tt, lg) cells t = ((tt, lg ++ lg'), next_row cells r)
+  Lemma step_plain_logged_pure r s lg cells t : 1 <= r <= length cells ->
+    exists s' lg', step_plain (logged1 rule) store r (s, lg) cells t = ((s', lg ++ lg'), next_row cells r)
                 /\ map call_key lg' = map (fun c => ring_nbhd cells c r) (seq 0 (length cells)).
   Proof.
-    intros H. unfold step_plain. destruct (apply_all_logged_pure (neighbourhoods cells r) lg 0 t) as (lg' & E & K).
-    exists lg'. rewrite E, K. rewrite neighbourhoods_ring by exact H. unfold next_row. rewrite map_map.
+    intros H. unfold step_plain. destruct (apply_all_logged_pure (neighbourhoods cells r) s lg 0 t) as (s' & lg' & E & K).
+    exists s', lg'. rewrite E, K. rewrite neighbourhoods_ring by exact H. unfold next_row. rewrite map_map.
     split; reflexivity.
   Qed.
 
@@ -238,7 +250,7 @@ Section Pure.
   Definition InvM (cache : cacheM) : Prop := forall k v, In (k, v) cache -> v = f k.
 
   (* state of the memoised engine after the neighbourhoods `seen` (in this order) have been processed *)
-  Definition GoodM (x : XM unit) (seen : list (list Z)) : Prop :=
+  Definition GoodM (x : XM St) (seen : list (list Z)) : Prop :=
     let cache := snd (fst x) in let lg := snd x in
     InvM cache /\ NoDup (map call_key lg) /\
     (forall k, In k (map fst cache) <-> In k (map call_key lg)) /\
@@ -253,7 +265,8 @@ Section Pure.
       split; [exact HI|]. split; [exact HN|]. split; [exact HC|].
       intros k. rewrite in_app_iff. rewrite HS. split; [intros H; left; exact H|].
       intros [H|[H|[]]]; [exact H|]. subst k. apply HS, HC. eapply lookup_Some_key. exact EL.
-    - cbn [pure1 fst snd]. split; [reflexivity|].
+    - pose proof (Hans s n c t) as Hv. destruct (rule s n c t) as [s1 v]. cbn [snd] in Hv. subst v.
+      cbn [fst snd]. split; [reflexivity|].
       assert (Hnew : ~ In n (map call_key lg)) by (intros H; apply HC in H; exact (lookup_None _ _ EL H)).
       split; [intros k v [H|H]; [injection H as <- <-; reflexivity|apply HI; exact H]|].
       rewrite map_app. cbn [map]. unfold call_key at 2 4 6. cbn [fst].
@@ -290,10 +303,12 @@ End Pure.
 (* lifted from notes/spikes/memo1d_recursive.v; the wrapped take is over Z as in the model, the rule
    state and the rule-call log are threaded *)
 Section PureRec.
+  Variable St : Type.
+  Variable rule : rule1 St.
   Variable f : list Z -> Z.
   Variable store : Z -> Z.
   Variable r : nat.
-  Local Notation rule := (pure1 f).
+  Hypothesis Hans : answers rule f.
 
   (* the wrapped take with a non-negative start (r <= N) *)
   Definition wt (row : list Z) (s len : nat) : list Z :=
@@ -377,7 +392,7 @@ Section PureRec.
       rewrite m1_nth_map_seq by lia. reflexivity.
   Qed.
 
-  Definition Post (curr : list Z) (start len : nat) (x : XR unit) (next : list Z) (res : XR unit * list Z) : Prop :=
+  Definition Post (curr : list Z) (start len : nat) (x : XR St) (next : list Z) (res : XR St * list Z) : Prop :=
     let cache' := snd (fst (fst res)) in
     let lg' := snd (fst res) in
     let next' := snd res in
@@ -436,7 +451,8 @@ Section PureRec.
         * intros i Hi. rewrite B2 by lia. apply B1. lia.
         * destruct G2 as [G2a G2b]. split; [exact G2a|]. intros k0 H0. cbn [map fst]. right. apply G2b. exact H0.
       + (* a single cell: the rule is invoked *)
-        apply Nat.ltb_ge in E1. assert (len = 1) by lia. subst len. cbn [pure1].
+        apply Nat.ltb_ge in E1. assert (len = 1) by lia. subst len.
+        pose proof (Hans s key start t) as Hv. destruct (rule s key start t) as [s1 v]. cbn [snd] in Hv. subst v.
         set (next' := write next start [store (f key)]).
         assert (L : length next' = length next) by (apply write_length; cbn [length]; lia).
         assert (A : forall i, start <= i < start + 1 -> nth i next' 0%Z = spec_cell curr i).
@@ -501,12 +517,16 @@ Section PureRec.
 End PureRec.
 
 (* ------------------------------------------------------------------ whole calls: C03 and C09 (1D) *)
+Arguments GoodM {St} f x seen.
+
 Section Calls.
+  Variable St : Type.
+  Variable rule : rule1 St.
   Variable f : list Z -> Z.
   Variable store : Z -> Z.
   Variable r : nat.
   Variable hist : list (list Z).
-  Local Notation rule := (pure1 f).
+  Hypothesis Hans : answers rule f.
   Local Notation N := (length (last hist [])).
   Hypothesis Hr : 1 <= r <= N.
 
@@ -516,43 +536,43 @@ Section Calls.
   Definition goodrow (c : list Z) : Prop := length c = N.
 
   (* ---- memoize=True against memoize=False: the memoised engine has processed exactly the
-          neighbourhoods the plain engine has passed to the rule *)
-  Definition RM (xa : XM unit) (xb : unit * list call1) : Prop := GoodM f xa (map call_key (snd xb)).
+          neighbourhoods the plain engine has passed to the rule (the rule states are unrelated) *)
+  Definition RM (xa : XM St) (xb : St * list call1) : Prop := GoodM f xa (map call_key (snd xb)).
 
   Lemma memo_step_sim : forall xa xb c t, RM xa xb -> goodrow c ->
     RM (fst (stepM xa c t)) (fst (stepP xb c t)) /\ snd (stepM xa c t) = snd (stepP xb c t) /\ goodrow (snd (stepP xb c t)).
   Proof.
-    intros xa [[] plg] c t HR Hg. unfold goodrow in *. unfold RM in *. cbn [snd] in HR.
+    intros xa [sb plg] c t HR Hg. unfold goodrow in *. unfold RM in *. cbn [snd] in HR.
     assert (Hc : 1 <= r <= length c) by (rewrite Hg; exact Hr).
-    destruct (step_plain_logged_pure f store r plg c t Hc) as (lg' & E & K). rewrite E. cbn [fst snd].
-    destruct (step_memo_ok f store r xa c t _ Hc HR) as [H1 H2].
+    destruct (step_plain_logged_pure St rule f store Hans r sb plg c t Hc) as (sb' & lg' & E & K). rewrite E. cbn [fst snd].
+    destruct (step_memo_ok St rule f store Hans r xa c t _ Hc HR) as [H1 H2].
     split; [|split; [exact H1|rewrite next_row_length; exact Hg]].
     rewrite map_app, K. exact H2.
   Qed.
 
-  Lemma RM_init : RM (tt, [], []) (tt, []).
+  Lemma RM_init s0 : RM (s0, [], []) (s0, []).
   Proof.
     unfold RM, GoodM. cbn [fst snd map]. split; [intros k v []|]. split; [constructor|]. split; intros k; reflexivity.
   Qed.
 
   (* ---- memoize="recursive" against memoize=False *)
-  Definition RR (xa : XR unit) (xb : unit * list call1) : Prop :=
+  Definition RR (xa : XR St) (xb : St * list call1) : Prop :=
     InvR f store r (snd (fst xa)) /\ LogR (snd (fst xa)) (snd xa) /\ length (snd xa) <= length (snd xb).
 
   Lemma rec_step_sim : forall xa xb c t, RR xa xb -> goodrow c ->
     RR (fst (stepR xa c t)) (fst (stepP xb c t)) /\ snd (stepR xa c t) = snd (stepP xb c t) /\ goodrow (snd (stepP xb c t)).
   Proof.
-    intros xa [[] plg] c t (HI & HL & HC) Hg. unfold goodrow in *. cbn [snd] in HC.
+    intros xa [sb plg] c t (HI & HL & HC) Hg. unfold goodrow in *. cbn [snd] in HC.
     assert (Hc : 1 <= r <= length c) by (rewrite Hg; exact Hr).
-    destruct (step_plain_logged_pure f store r plg c t Hc) as (lg' & E & K). rewrite E. cbn [fst snd].
+    destruct (step_plain_logged_pure St rule f store Hans r sb plg c t Hc) as (sb' & lg' & E & K). rewrite E. cbn [fst snd].
     assert (Hl' : length lg' = length c).
     { rewrite <- (map_length call_key lg'), K, map_length, seq_length. reflexivity. }
-    destruct (step_recursive_ok f store r c t xa) as (H1 & H2 & H3 & H4); try lia; try assumption.
+    destruct (step_recursive_ok St rule f store r Hans c t xa) as (H1 & H2 & H3 & H4); try lia; try assumption.
     split; [|split; [exact H1|rewrite next_row_length; exact Hg]].
     unfold RR. cbn [fst snd]. split; [exact H2|]. split; [exact H3|]. rewrite app_length. lia.
   Qed.
 
-  Lemma RR_init : RR (tt, [], []) (tt, []).
+  Lemma RR_init s0 : RR (s0, [], []) (s0, []).
   Proof.
     unfold RR, InvR, LogR. cbn [fst snd map length]. split; [intros k v []|]. split; [|lia].
     split; [constructor|intros k []].
@@ -562,61 +582,73 @@ Section Calls.
   Proof. reflexivity. Qed.
 
   (* ---- the plain log has one entry per cell and step *)
-  Lemma plain_log_iter : forall n lg cur t, goodrow cur ->
-    length (snd (fst (iter_steps stepP n (tt, lg) cur t))) = length lg + n * N.
+  Lemma plain_log_iter : forall n s lg cur t, goodrow cur ->
+    length (snd (fst (iter_steps stepP n (s, lg) cur t))) = length lg + n * N.
   Proof.
-    induction n as [|n IH]; intros lg cur t Hg; [cbn [iter_steps fst snd]; lia|].
+    induction n as [|n IH]; intros s lg cur t Hg; [cbn [iter_steps fst snd]; lia|].
     cbn [iter_steps]. unfold goodrow in Hg.
     assert (Hc : 1 <= r <= length cur) by (rewrite Hg; exact Hr).
-    destruct (step_plain_logged_pure f store r lg cur t Hc) as (lg' & E & K). rewrite E.
+    destruct (step_plain_logged_pure St rule f store Hans r s lg cur t Hc) as (s' & lg' & E & K). rewrite E.
     assert (Hl' : length lg' = N).
     { rewrite <- (map_length call_key lg'), K, map_length, seq_length. exact Hg. }
-    specialize (IH (lg ++ lg') (next_row f store cur r) (S t)).
-    destruct (iter_steps stepP n (tt, lg ++ lg') (next_row f store cur r) (S t)) as [x2 rest].
+    specialize (IH s' (lg ++ lg') (next_row f store cur r) (S t)).
+    destruct (iter_steps stepP n (s', lg ++ lg') (next_row f store cur r) (S t)) as [x2 rest].
     cbn [fst snd] in IH |- *. rewrite IH by (unfold goodrow; rewrite next_row_length; exact Hg).
     rewrite app_length, Hl'. lia.
   Qed.
 
-  Lemma plain_log_length T : 1 <= T ->
-    length (log_of (evolve1d_fixed rule store (PBool false) r tt hist T)) = N * (T - 1).
+  Lemma plain_log_length_ans s0 T : 1 <= T ->
+    length (log_of (evolve1d_fixed rule store (PBool false) r s0 hist T)) = N * (T - 1).
   Proof.
     intros HT. destruct T as [|k]; [lia|].
     unfold evolve1d_fixed. change (dispatch (PBool false)) with (Some Plain).
     unfold evolve_mode_fixed, evolve_plain, evolve_fixed.
-    pose proof (plain_log_iter k [] (last hist []) 1 good_init) as H.
-    destruct (iter_steps stepP k (tt, []) (last hist []) 1) as [[s lg] rows].
+    pose proof (plain_log_iter k s0 [] (last hist []) 1 good_init) as H.
+    destruct (iter_steps stepP k (s0, []) (last hist []) 1) as [[s lg] rows].
     cbn [fst snd bind log_of length] in H |- *. rewrite H. cbn [length]. lia.
   Qed.
 
+  (* the unmemoised run of a call with T >= 1 returns (it does not raise) *)
+  Lemma plain_fixed_ok s0 T : 1 <= T ->
+    exists rows, arr_of (evolve1d_fixed rule store (PBool false) r s0 hist T) = Ok (hist ++ rows) /\ length rows = T - 1.
+  Proof.
+    intros HT. destruct T as [|k]; [lia|].
+    unfold evolve1d_fixed. change (dispatch (PBool false)) with (Some Plain).
+    unfold evolve_mode_fixed, evolve_plain, evolve_fixed.
+    pose proof (EngineProofs.iter_steps_length _ _ stepP k (s0, []) (last hist []) 1) as HL.
+    destruct (iter_steps stepP k (s0, []) (last hist []) 1) as [[s lg] rows]. cbn [snd] in HL.
+    exists rows. cbn [bind arr_of]. split; [reflexivity|lia].
+  Qed.
+
   (* ---------------------------------------------------------------- fixed timesteps *)
-  Theorem memo_true_fixed T :
-    arr_of (evolve1d_fixed rule store (PBool true) r tt hist T) = arr_of (evolve1d_fixed rule store (PBool false) r tt hist T) /\
-    NoDup (map call_key (log_of (evolve1d_fixed rule store (PBool true) r tt hist T))) /\
-    forall k, In k (map call_key (log_of (evolve1d_fixed rule store (PBool true) r tt hist T))) <->
-              In k (map call_key (log_of (evolve1d_fixed rule store (PBool false) r tt hist T))).
+  Theorem memo_true_fixed_ans s0 T :
+    arr_of (evolve1d_fixed rule store (PBool true) r s0 hist T) = arr_of (evolve1d_fixed rule store (PBool false) r s0 hist T) /\
+    NoDup (map call_key (log_of (evolve1d_fixed rule store (PBool true) r s0 hist T))) /\
+    forall k, In k (map call_key (log_of (evolve1d_fixed rule store (PBool true) r s0 hist T))) <->
+              In k (map call_key (log_of (evolve1d_fixed rule store (PBool false) r s0 hist T))).
   Proof.
     unfold evolve1d_fixed. change (dispatch (PBool true)) with (Some Memo). change (dispatch (PBool false)) with (Some Plain).
     unfold evolve_mode_fixed, evolve_plain.
-    pose proof (fixed_sim _ _ _ [] stepM stepP RM goodrow memo_step_sim (tt, [], []) (tt, []) hist T RM_init good_init) as H.
-    destruct (evolve_fixed [] stepM (tt, [], []) hist T) as [[[[sa ca] la] oa]|ea];
-      destruct (evolve_fixed [] stepP (tt, []) hist T) as [[[sb lb] ob]|eb]; cbn [fixed_rel] in H; try contradiction.
+    pose proof (fixed_sim _ _ _ [] stepM stepP RM goodrow memo_step_sim (s0, [], []) (s0, []) hist T (RM_init s0) good_init) as H.
+    destruct (evolve_fixed [] stepM (s0, [], []) hist T) as [[[[sa ca] la] oa]|ea];
+      destruct (evolve_fixed [] stepP (s0, []) hist T) as [[[sb lb] ob]|eb]; cbn [fixed_rel] in H; try contradiction.
     - destruct H as [HR <-]. unfold RM, GoodM in HR. cbn [fst snd] in HR. destruct HR as (_ & HN & _ & HS).
       cbn [bind arr_of log_of]. split; [reflexivity|]. split; [exact HN|exact HS].
     - subst eb. cbn [bind arr_of log_of map]. split; [reflexivity|]. split; [constructor|intros k; reflexivity].
   Qed.
 
-  Theorem memo_recursive_fixed T :
-    arr_of (evolve1d_fixed rule store (PStr StrLit.recursive_lit) r tt hist T) = arr_of (evolve1d_fixed rule store (PBool false) r tt hist T) /\
-    NoDup (map call_key (log_of (evolve1d_fixed rule store (PStr StrLit.recursive_lit) r tt hist T))) /\
-    length (log_of (evolve1d_fixed rule store (PStr StrLit.recursive_lit) r tt hist T)) <=
-      length (log_of (evolve1d_fixed rule store (PBool false) r tt hist T)).
+  Theorem memo_recursive_fixed_ans s0 T :
+    arr_of (evolve1d_fixed rule store (PStr StrLit.recursive_lit) r s0 hist T) = arr_of (evolve1d_fixed rule store (PBool false) r s0 hist T) /\
+    NoDup (map call_key (log_of (evolve1d_fixed rule store (PStr StrLit.recursive_lit) r s0 hist T))) /\
+    length (log_of (evolve1d_fixed rule store (PStr StrLit.recursive_lit) r s0 hist T)) <=
+      length (log_of (evolve1d_fixed rule store (PBool false) r s0 hist T)).
   Proof.
     unfold evolve1d_fixed. change (dispatch (PStr StrLit.recursive_lit)) with (Some Recursive).
     change (dispatch (PBool false)) with (Some Plain).
     unfold evolve_mode_fixed, evolve_plain.
-    pose proof (fixed_sim _ _ _ [] stepR stepP RR goodrow rec_step_sim (tt, [], []) (tt, []) hist T RR_init good_init) as H.
-    destruct (evolve_fixed [] stepR (tt, [], []) hist T) as [[[[sa ca] la] oa]|ea];
-      destruct (evolve_fixed [] stepP (tt, []) hist T) as [[[sb lb] ob]|eb]; cbn [fixed_rel] in H; try contradiction.
+    pose proof (fixed_sim _ _ _ [] stepR stepP RR goodrow rec_step_sim (s0, [], []) (s0, []) hist T (RR_init s0) good_init) as H.
+    destruct (evolve_fixed [] stepR (s0, [], []) hist T) as [[[[sa ca] la] oa]|ea];
+      destruct (evolve_fixed [] stepP (s0, []) hist T) as [[[sb lb] ob]|eb]; cbn [fixed_rel] in H; try contradiction.
     - destruct H as [HR <-]. unfold RR, LogR in HR. cbn [fst snd] in HR. destruct HR as (_ & [HN _] & HC).
       cbn [bind arr_of log_of]. split; [reflexivity|]. split; [exact HN|exact HC].
     - subst eb. cbn [bind arr_of log_of map length]. split; [reflexivity|]. split; [constructor|lia].
@@ -625,19 +657,19 @@ Section Calls.
   (* ---- "exactly once each": the contents the rule sees under memoize=True are exactly the ring
           neighbourhoods that occur in the trajectory of the unmemoised evolution (C01's
           evolve_plain_logged says what the plain engine passes to the rule) *)
-  Theorem memo_true_once_trajectory T : 1 <= T ->
-    exists rows,
-      evolve_plain rule store r tt hist T = Ok (tt, hist ++ rows) /\
-      arr_of (evolve1d_fixed rule store (PBool true) r tt hist T) = Ok (hist ++ rows) /\
-      NoDup (map call_key (log_of (evolve1d_fixed rule store (PBool true) r tt hist T))) /\
-      forall k, In k (map call_key (log_of (evolve1d_fixed rule store (PBool true) r tt hist T))) <->
+  Theorem memo_true_once_trajectory_ans s0 T : 1 <= T ->
+    exists s' rows,
+      evolve_plain rule store r s0 hist T = Ok (s', hist ++ rows) /\
+      arr_of (evolve1d_fixed rule store (PBool true) r s0 hist T) = Ok (hist ++ rows) /\
+      NoDup (map call_key (log_of (evolve1d_fixed rule store (PBool true) r s0 hist T))) /\
+      forall k, In k (map call_key (log_of (evolve1d_fixed rule store (PBool true) r s0 hist T))) <->
         exists t c, 1 <= t < T /\ c < N /\ k = ring_nbhd (nth (t - 1) (last hist [] :: rows) []) c r.
   Proof.
-    intros HT. destruct (evolve_plain_logged unit rule store r tt [] hist T Hr HT) as (s' & rows & E1 & HL & HRow & E2).
-    destruct s'. exists rows. split; [exact E1|].
-    destruct (memo_true_fixed T) as (HA & HN & HS).
-    assert (EP : evolve1d_fixed rule store (PBool false) r tt hist T =
-                 Ok (tt, evolve_calls r N (last hist []) rows T, hist ++ rows)).
+    intros HT. destruct (evolve_plain_logged St rule store r s0 [] hist T Hr HT) as (s' & rows & E1 & HL & HRow & E2).
+    exists s', rows. split; [exact E1|].
+    destruct (memo_true_fixed_ans s0 T) as (HA & HN & HS).
+    assert (EP : evolve1d_fixed rule store (PBool false) r s0 hist T =
+                 Ok (s', evolve_calls r N (last hist []) rows T, hist ++ rows)).
     { unfold evolve1d_fixed. change (dispatch (PBool false)) with (Some Plain). unfold evolve_mode_fixed.
       rewrite E2. reflexivity. }
     rewrite EP in HA, HS. cbn [arr_of log_of] in HA, HS. split; [exact HA|]. split; [exact HN|].
@@ -652,7 +684,132 @@ Section Calls.
       apply in_map_iff. exists c0. split; [reflexivity|apply in_seq; lia].
   Qed.
 
+  (* the same with the results made explicit: neither run raised (REVIEW_B item 8) *)
+  Theorem memo_recursive_fixed_ok s0 T : 1 <= T ->
+    exists rows,
+      arr_of (evolve1d_fixed rule store (PStr StrLit.recursive_lit) r s0 hist T) = Ok (hist ++ rows) /\
+      arr_of (evolve1d_fixed rule store (PBool false) r s0 hist T) = Ok (hist ++ rows) /\
+      length rows = T - 1 /\
+      NoDup (map call_key (log_of (evolve1d_fixed rule store (PStr StrLit.recursive_lit) r s0 hist T))) /\
+      length (log_of (evolve1d_fixed rule store (PStr StrLit.recursive_lit) r s0 hist T)) <=
+        length (log_of (evolve1d_fixed rule store (PBool false) r s0 hist T)) /\
+      length (log_of (evolve1d_fixed rule store (PBool false) r s0 hist T)) = N * (T - 1).
+  Proof.
+    intros HT. destruct (plain_fixed_ok s0 T HT) as (rows & EP & HL).
+    destruct (memo_recursive_fixed_ans s0 T) as (HA & HN & HC).
+    exists rows. rewrite HA. split; [exact EP|]. split; [exact EP|]. split; [exact HL|].
+    split; [exact HN|]. split; [exact HC|apply plain_log_length_ans; exact HT].
+  Qed.
+
   (* ---------------------------------------------------------------- callable timesteps *)
+  Section Dyn.
+    Variable P : Type.
+    Variable pred : P -> list (list Z) -> nat -> P * bool.
+    Variables (fuel : nat) (p0 : P).
+
+    Theorem memo_true_dynamic_ans s0 :
+      dyn_arr_of (evolve1d_dynamic rule store pred (PBool true) r fuel p0 s0 hist) =
+        dyn_arr_of (evolve1d_dynamic rule store pred (PBool false) r fuel p0 s0 hist) /\
+      NoDup (map call_key (dyn_log_of (evolve1d_dynamic rule store pred (PBool true) r fuel p0 s0 hist))) /\
+      forall k, In k (map call_key (dyn_log_of (evolve1d_dynamic rule store pred (PBool true) r fuel p0 s0 hist))) <->
+                In k (map call_key (dyn_log_of (evolve1d_dynamic rule store pred (PBool false) r fuel p0 s0 hist))).
+    Proof.
+      unfold evolve1d_dynamic. change (dispatch (PBool true)) with (Some Memo). change (dispatch (PBool false)) with (Some Plain).
+      unfold evolve_mode_dynamic, evolve_plain_dynamic.
+      pose proof (dynamic_sim _ _ _ _ [] stepM stepP pred RM goodrow memo_step_sim fuel p0 (s0, [], []) (s0, []) hist (RM_init s0) good_init) as H.
+      destruct (evolve_dynamic [] stepM pred fuel p0 (s0, [], []) hist) as [[[[pa [[sa ca] la]] oa] pla]|];
+        destruct (evolve_dynamic [] stepP pred fuel p0 (s0, []) hist) as [[[[pb [sb lb]] ob] plb]|]; cbn [dyn_rel] in H; try contradiction.
+      - destruct H as (<- & HR & <- & <-). unfold RM, GoodM in HR. cbn [fst snd] in HR. destruct HR as (_ & HN & _ & HS).
+        cbn [dyn_arr_of dyn_log_of]. split; [reflexivity|]. split; [exact HN|exact HS].
+      - cbn [dyn_arr_of dyn_log_of map]. split; [reflexivity|]. split; [constructor|intros k; reflexivity].
+    Qed.
+
+    Theorem memo_recursive_dynamic_ans s0 :
+      dyn_arr_of (evolve1d_dynamic rule store pred (PStr StrLit.recursive_lit) r fuel p0 s0 hist) =
+        dyn_arr_of (evolve1d_dynamic rule store pred (PBool false) r fuel p0 s0 hist) /\
+      NoDup (map call_key (dyn_log_of (evolve1d_dynamic rule store pred (PStr StrLit.recursive_lit) r fuel p0 s0 hist))) /\
+      length (dyn_log_of (evolve1d_dynamic rule store pred (PStr StrLit.recursive_lit) r fuel p0 s0 hist)) <=
+        length (dyn_log_of (evolve1d_dynamic rule store pred (PBool false) r fuel p0 s0 hist)).
+    Proof.
+      unfold evolve1d_dynamic. change (dispatch (PStr StrLit.recursive_lit)) with (Some Recursive).
+      change (dispatch (PBool false)) with (Some Plain).
+      unfold evolve_mode_dynamic, evolve_plain_dynamic.
+      pose proof (dynamic_sim _ _ _ _ [] stepR stepP pred RR goodrow rec_step_sim fuel p0 (s0, [], []) (s0, []) hist (RR_init s0) good_init) as H.
+      destruct (evolve_dynamic [] stepR pred fuel p0 (s0, [], []) hist) as [[[[pa [[sa ca] la]] oa] pla]|];
+        destruct (evolve_dynamic [] stepP pred fuel p0 (s0, []) hist) as [[[[pb [sb lb]] ob] plb]|]; cbn [dyn_rel] in H; try contradiction.
+      - destruct H as (<- & HR & <- & <-). unfold RR, LogR in HR. cbn [fst snd] in HR. destruct HR as (_ & [HN _] & HC).
+        cbn [dyn_arr_of dyn_log_of]. split; [reflexivity|]. split; [exact HN|exact HC].
+      - cbn [dyn_arr_of dyn_log_of map length]. split; [reflexivity|]. split; [constructor|lia].
+    Qed.
+    (* the same for a run that returned: the unmemoised run returned the same array with the same
+       predicate state and log (it did not run out of fuel, it did not raise) *)
+    Theorem memo_true_dynamic_ok s0 p sa la a plog :
+      evolve1d_dynamic rule store pred (PBool true) r fuel p0 s0 hist = Some (Ok (p, (sa, la, a), plog)) ->
+      exists sb lb,
+        evolve1d_dynamic rule store pred (PBool false) r fuel p0 s0 hist = Some (Ok (p, (sb, lb, a), plog)) /\
+        NoDup (map call_key la) /\ forall k, In k (map call_key la) <-> In k (map call_key lb).
+    Proof.
+      intros E. destruct (memo_true_dynamic_ans s0) as (HA & HN & HS). rewrite E in HA, HN, HS.
+      cbn [dyn_arr_of dyn_log_of] in HA, HN, HS.
+      destruct (evolve1d_dynamic rule store pred (PBool false) r fuel p0 s0 hist) as [[[[pb [[sb lb] ob]] plb]|eb]|];
+        cbn [dyn_arr_of dyn_log_of] in HA, HS; try discriminate HA.
+      injection HA as <- <- <-. exists sb, lb. split; [reflexivity|]. split; [exact HN|exact HS].
+    Qed.
+
+    Theorem memo_recursive_dynamic_ok s0 p sa la a plog :
+      evolve1d_dynamic rule store pred (PStr StrLit.recursive_lit) r fuel p0 s0 hist = Some (Ok (p, (sa, la, a), plog)) ->
+      exists sb lb,
+        evolve1d_dynamic rule store pred (PBool false) r fuel p0 s0 hist = Some (Ok (p, (sb, lb, a), plog)) /\
+        NoDup (map call_key la) /\ length la <= length lb.
+    Proof.
+      intros E. destruct (memo_recursive_dynamic_ans s0) as (HA & HN & HC). rewrite E in HA, HN, HC.
+      cbn [dyn_arr_of dyn_log_of] in HA, HN, HC.
+      destruct (evolve1d_dynamic rule store pred (PBool false) r fuel p0 s0 hist) as [[[[pb [[sb lb] ob]] plb]|eb]|];
+        cbn [dyn_arr_of dyn_log_of] in HA, HC; try discriminate HA.
+      injection HA as <- <- <-. exists sb, lb. split; [reflexivity|]. split; [exact HN|exact HC].
+    Qed.
+  End Dyn.
+End Calls.
+
+(* ------------------------------------------------------------------ the stateless instances (names used by other files) *)
+Section PureCalls.
+  Variable f : list Z -> Z.
+  Variable store : Z -> Z.
+  Variable r : nat.
+  Variable hist : list (list Z).
+  Hypothesis Hr : 1 <= r <= length (last hist []).
+  Local Notation rule := (pure1 f).
+
+  Lemma plain_log_length T : 1 <= T ->
+    length (log_of (evolve1d_fixed rule store (PBool false) r tt hist T)) = length (last hist []) * (T - 1).
+  Proof. exact (plain_log_length_ans unit rule f store r hist (pure1_answers f) Hr tt T). Qed.
+
+  Theorem memo_true_fixed T :
+    arr_of (evolve1d_fixed rule store (PBool true) r tt hist T) = arr_of (evolve1d_fixed rule store (PBool false) r tt hist T) /\
+    NoDup (map call_key (log_of (evolve1d_fixed rule store (PBool true) r tt hist T))) /\
+    forall k, In k (map call_key (log_of (evolve1d_fixed rule store (PBool true) r tt hist T))) <->
+              In k (map call_key (log_of (evolve1d_fixed rule store (PBool false) r tt hist T))).
+  Proof. exact (memo_true_fixed_ans unit rule f store r hist (pure1_answers f) Hr tt T). Qed.
+
+  Theorem memo_recursive_fixed T :
+    arr_of (evolve1d_fixed rule store (PStr StrLit.recursive_lit) r tt hist T) = arr_of (evolve1d_fixed rule store (PBool false) r tt hist T) /\
+    NoDup (map call_key (log_of (evolve1d_fixed rule store (PStr StrLit.recursive_lit) r tt hist T))) /\
+    length (log_of (evolve1d_fixed rule store (PStr StrLit.recursive_lit) r tt hist T)) <=
+      length (log_of (evolve1d_fixed rule store (PBool false) r tt hist T)).
+  Proof. exact (memo_recursive_fixed_ans unit rule f store r hist (pure1_answers f) Hr tt T). Qed.
+
+  Theorem memo_true_once_trajectory T : 1 <= T ->
+    exists rows,
+      evolve_plain rule store r tt hist T = Ok (tt, hist ++ rows) /\
+      arr_of (evolve1d_fixed rule store (PBool true) r tt hist T) = Ok (hist ++ rows) /\
+      NoDup (map call_key (log_of (evolve1d_fixed rule store (PBool true) r tt hist T))) /\
+      forall k, In k (map call_key (log_of (evolve1d_fixed rule store (PBool true) r tt hist T))) <->
+        exists t c, 1 <= t < T /\ c < length (last hist []) /\ k = ring_nbhd (nth (t - 1) (last hist [] :: rows) []) c r.
+  Proof.
+    intros HT. destruct (memo_true_once_trajectory_ans unit rule f store r hist (pure1_answers f) Hr tt T HT) as ([] & rows & H).
+    exists rows. exact H.
+  Qed.
+
   Section Dyn.
     Variable P : Type.
     Variable pred : P -> list (list Z) -> nat -> P * bool.
@@ -664,16 +821,7 @@ Section Calls.
       NoDup (map call_key (dyn_log_of (evolve1d_dynamic rule store pred (PBool true) r fuel p0 tt hist))) /\
       forall k, In k (map call_key (dyn_log_of (evolve1d_dynamic rule store pred (PBool true) r fuel p0 tt hist))) <->
                 In k (map call_key (dyn_log_of (evolve1d_dynamic rule store pred (PBool false) r fuel p0 tt hist))).
-    Proof.
-      unfold evolve1d_dynamic. change (dispatch (PBool true)) with (Some Memo). change (dispatch (PBool false)) with (Some Plain).
-      unfold evolve_mode_dynamic, evolve_plain_dynamic.
-      pose proof (dynamic_sim _ _ _ _ [] stepM stepP pred RM goodrow memo_step_sim fuel p0 (tt, [], []) (tt, []) hist RM_init good_init) as H.
-      destruct (evolve_dynamic [] stepM pred fuel p0 (tt, [], []) hist) as [[[[pa [[sa ca] la]] oa] pla]|];
-        destruct (evolve_dynamic [] stepP pred fuel p0 (tt, []) hist) as [[[[pb [sb lb]] ob] plb]|]; cbn [dyn_rel] in H; try contradiction.
-      - destruct H as (<- & HR & <- & <-). unfold RM, GoodM in HR. cbn [fst snd] in HR. destruct HR as (_ & HN & _ & HS).
-        cbn [dyn_arr_of dyn_log_of]. split; [reflexivity|]. split; [exact HN|exact HS].
-      - cbn [dyn_arr_of dyn_log_of map]. split; [reflexivity|]. split; [constructor|intros k; reflexivity].
-    Qed.
+    Proof. exact (memo_true_dynamic_ans unit rule f store r hist (pure1_answers f) Hr P pred fuel p0 tt). Qed.
 
     Theorem memo_recursive_dynamic :
       dyn_arr_of (evolve1d_dynamic rule store pred (PStr StrLit.recursive_lit) r fuel p0 tt hist) =
@@ -681,19 +829,162 @@ Section Calls.
       NoDup (map call_key (dyn_log_of (evolve1d_dynamic rule store pred (PStr StrLit.recursive_lit) r fuel p0 tt hist))) /\
       length (dyn_log_of (evolve1d_dynamic rule store pred (PStr StrLit.recursive_lit) r fuel p0 tt hist)) <=
         length (dyn_log_of (evolve1d_dynamic rule store pred (PBool false) r fuel p0 tt hist)).
-    Proof.
-      unfold evolve1d_dynamic. change (dispatch (PStr StrLit.recursive_lit)) with (Some Recursive).
-      change (dispatch (PBool false)) with (Some Plain).
-      unfold evolve_mode_dynamic, evolve_plain_dynamic.
-      pose proof (dynamic_sim _ _ _ _ [] stepR stepP pred RR goodrow rec_step_sim fuel p0 (tt, [], []) (tt, []) hist RR_init good_init) as H.
-      destruct (evolve_dynamic [] stepR pred fuel p0 (tt, [], []) hist) as [[[[pa [[sa ca] la]] oa] pla]|];
-        destruct (evolve_dynamic [] stepP pred fuel p0 (tt, []) hist) as [[[[pb [sb lb]] ob] plb]|]; cbn [dyn_rel] in H; try contradiction.
-      - destruct H as (<- & HR & <- & <-). unfold RR, LogR in HR. cbn [fst snd] in HR. destruct HR as (_ & [HN _] & HC).
-        cbn [dyn_arr_of dyn_log_of]. split; [reflexivity|]. split; [exact HN|exact HC].
-      - cbn [dyn_arr_of dyn_log_of map length]. split; [reflexivity|]. split; [constructor|lia].
-    Qed.
+    Proof. exact (memo_recursive_dynamic_ans unit rule f store r hist (pure1_answers f) Hr P pred fuel p0 tt). Qed.
   End Dyn.
-End Calls.
+End PureCalls.
+
+(* ------------------------------------------------------------------ any rule: no repeated contents *)
+(* "a rule call happens only on a miss and is followed by the insertion of its key": these are cache
+   facts; they hold for ANY rule state machine (pure or not), any radius, any rows. *)
+Section XInv.
+  Variables (X P C : Type).
+  Variable dflt : C.
+  Variable step : X -> C -> nat -> X * C.
+  Variable pred : P -> list C -> nat -> P * bool.
+  Variable Inv : X -> Prop.
+  Hypothesis Hstep : forall x c t, Inv x -> Inv (fst (step x c t)).
+
+  Lemma iter_xinv : forall n x cur t, Inv x -> Inv (fst (iter_steps step n x cur t)).
+  Proof.
+    induction n as [|n IH]; intros x cur t HI; [exact HI|].
+    cbn [iter_steps]. pose proof (Hstep x cur t HI) as H1. destruct (step x cur t) as [x1 nxt]. cbn [fst] in H1.
+    specialize (IH x1 nxt (S t) H1). destruct (iter_steps step n x1 nxt (S t)) as [x2 rest]. exact IH.
+  Qed.
+
+  Lemma fixed_xinv x hist T x' out : Inv x -> evolve_fixed dflt step x hist T = Ok (x', out) -> Inv x'.
+  Proof.
+    intros HI E. destruct T as [|k]; [discriminate E|]. unfold evolve_fixed in E.
+    pose proof (iter_xinv k x (last hist dflt) 1 HI) as H.
+    destruct (iter_steps step k x (last hist dflt) 1) as [x1 rows]. injection E as <- _. exact H.
+  Qed.
+
+  Lemma dyn_loop_xinv : forall fuel p x states t plog p' x' st' pl',
+    Inv x -> dynamic_loop dflt step pred fuel p x states t plog = Some (p', x', st', pl') -> Inv x'.
+  Proof.
+    induction fuel as [|fuel IH]; intros p x states t plog p' x' st' pl' HI E; [discriminate E|].
+    cbn [dynamic_loop] in E. destruct (pred p states t) as [p1 go]. destruct go.
+    - pose proof (Hstep x (last states dflt) t HI) as H1.
+      destruct (step x (last states dflt) t) as [x1 nxt]. cbn [fst] in H1. exact (IH _ _ _ _ _ _ _ _ _ H1 E).
+    - injection E as _ <- _ _. exact HI.
+  Qed.
+
+  Lemma dynamic_xinv fuel p x hist p' x' out pl' :
+    Inv x -> evolve_dynamic dflt step pred fuel p x hist = Some (p', x', out, pl') -> Inv x'.
+  Proof.
+    intros HI E. unfold evolve_dynamic in E.
+    destruct (dynamic_loop dflt step pred fuel p x [last hist dflt] 1 []) as [[[[p1 x1] s1] l1]|] eqn:EL; [|discriminate E].
+    injection E as _ <- _ _. exact (dyn_loop_xinv _ _ _ _ _ _ _ _ _ _ HI EL).
+  Qed.
+End XInv.
+
+Section AnyRule.
+  Variable St : Type.
+  Variable rule : rule1 St.
+  Variable store : Z -> Z.
+  Variable r : nat.
+
+  (* memoize=True: the cache keys are exactly the contents of the logged calls, which are distinct *)
+  Definition KM (x : XM St) : Prop :=
+    NoDup (map call_key (snd x)) /\ forall k, In k (map fst (snd (fst x))) <-> In k (map call_key (snd x)).
+
+  Lemma get_memoized_K x n c t : KM x -> KM (fst (get_memoized rule x n c t)).
+  Proof.
+    destruct x as [[s cache] lg]. unfold KM. cbn [fst snd]. intros (HN & HC).
+    unfold get_memoized. destruct (lookup n cache) as [v|] eqn:EL; [cbn [fst snd]; split; assumption|].
+    destruct (rule s n c t) as [s1 v]. cbn [fst snd].
+    assert (Hnew : ~ In n (map call_key lg)) by (intros H; apply HC in H; exact (lookup_None _ _ EL H)).
+    rewrite map_app. cbn [map]. unfold call_key at 2 4. cbn [fst].
+    split; [apply m1_nodup_snoc; assumption|].
+    intros k; cbn [map fst In]; rewrite !in_app_iff; cbn [In]. rewrite HC. tauto.
+  Qed.
+
+  Lemma memo_all_K : forall nbs x c t, KM x -> KM (fst (memo_all rule store x c nbs t)).
+  Proof.
+    induction nbs as [|n nbs IH]; intros x c t HK; [exact HK|].
+    cbn [memo_all]. pose proof (get_memoized_K x n c t HK) as H1.
+    destruct (get_memoized rule x n c t) as [x1 v]. cbn [fst] in H1.
+    specialize (IH x1 (S c) t H1). destruct (memo_all rule store x1 (S c) nbs t) as [x2 vs]. exact IH.
+  Qed.
+
+  Lemma step_memo_K x cells t : KM x -> KM (fst (step_memo rule store r x cells t)).
+  Proof. intros HK. unfold step_memo. apply memo_all_K. exact HK. Qed.
+
+  (* memoize="recursive": logged keys are distinct and are all in the cache *)
+  Definition KR (x : XR St) : Prop := LogR (snd (fst x)) (snd x).
+
+  Lemma split_with_K (rec : nat -> nat -> XR St -> list Z -> XR St * list Z) start len x next :
+    (forall st ln x0 n0, KR x0 -> KR (fst (rec st ln x0 n0))) -> KR x -> KR (fst (split_with rec start len x next)).
+  Proof.
+    intros Hrec HK. unfold split_with.
+    assert (H1 : KR (fst (if 0 <? len / 2 then rec start (len / 2) x next else (x, next)))).
+    { destruct (0 <? len / 2); [apply Hrec|]; exact HK. }
+    destruct (if 0 <? len / 2 then rec start (len / 2) x next else (x, next)) as [x1 n1]. cbn [fst] in H1.
+    destruct (0 <? len - len / 2); [apply Hrec|]; exact H1.
+  Qed.
+
+  Lemma update_state_K curr t : forall fuel start len x next,
+    KR x -> KR (fst (update_state rule store fuel curr r t start len x next)).
+  Proof.
+    induction fuel as [|k IH]; intros start len x next HK; [exact HK|].
+    destruct x as [[s cache] lg]. cbn [update_state].
+    set (key := wrap_take curr (Z.of_nat start - Z.of_nat r) (len + 2 * r)).
+    destruct (lookup key cache) as [vals|] eqn:EL; [exact HK|].
+    assert (Hnew : ~ In key (map call_key lg)).
+    { intros H. apply (proj2 HK) in H. exact (lookup_None _ _ EL H). }
+    destruct (1 <? len).
+    - pose proof (split_with_K (update_state rule store k curr r t) start len (s, cache, lg) next IH HK) as H2.
+      destruct (split_with (update_state rule store k curr r t) start len (s, cache, lg) next) as [[[s2 c2] l2] n2].
+      unfold KR, LogR in H2 |- *. cbn [fst snd] in H2 |- *.
+      destruct H2 as [H2a H2b]. split; [exact H2a|]. intros k0 H0. cbn [map fst]. right. apply H2b. exact H0.
+    - unfold KR, LogR in HK. cbn [fst snd] in HK.
+      destruct (rule s key start t) as [s1 v]. unfold KR, LogR. cbn [fst snd].
+      rewrite map_app. cbn [map]. unfold call_key at 2 4. cbn [fst]. split.
+      + apply m1_nodup_snoc; [exact (proj1 HK)|exact Hnew].
+      + intros k0 H0. apply in_app_iff in H0. cbn [map fst In]. destruct H0 as [H0|[H0|[]]].
+        * right. apply (proj2 HK). exact H0.
+        * left. exact H0.
+  Qed.
+
+  Lemma step_recursive_K x cells t : KR x -> KR (fst (step_recursive rule store r x cells t)).
+  Proof.
+    intros HK. unfold step_recursive. apply split_with_K; [|exact HK].
+    intros st ln x0 n0 H0. apply update_state_K. exact H0.
+  Qed.
+
+  (* whole calls, any rule, any radius: no two rule calls of one evolve call have equal contents *)
+  Theorem memo_nodup_fixed_any (memo : PyVal) s0 hist T : memo = PBool true \/ memo = PStr StrLit.recursive_lit ->
+    NoDup (map call_key (log_of (evolve1d_fixed rule store memo r s0 hist T))).
+  Proof.
+    intros [-> | ->]; unfold evolve1d_fixed.
+    - change (dispatch (PBool true)) with (Some Memo). unfold evolve_mode_fixed.
+      destruct (evolve_fixed [] (step_memo rule store r) (s0, [], []) hist T) as [[[[sa ca] la] oa]|ea] eqn:E;
+        cbn [bind log_of map]; [|constructor].
+      assert (H0 : KM (s0, [], [])) by (unfold KM; cbn [fst snd map]; split; [constructor|intros k; reflexivity]).
+      exact (proj1 (fixed_xinv _ _ [] (step_memo rule store r) KM (fun x c t => step_memo_K x c t) _ _ _ _ _ H0 E)).
+    - change (dispatch (PStr StrLit.recursive_lit)) with (Some Recursive). unfold evolve_mode_fixed.
+      destruct (evolve_fixed [] (step_recursive rule store r) (s0, [], []) hist T) as [[[[sa ca] la] oa]|ea] eqn:E;
+        cbn [bind log_of map]; [|constructor].
+      assert (H0 : KR (s0, [], [])) by (unfold KR, LogR; cbn [fst snd map]; split; [constructor|intros k []]).
+      exact (proj1 (fixed_xinv _ _ [] (step_recursive rule store r) KR (fun x c t => step_recursive_K x c t) _ _ _ _ _ H0 E)).
+  Qed.
+
+  Theorem memo_nodup_dynamic_any {P} (pred : P -> list (list Z) -> nat -> P * bool) (memo : PyVal) fuel p0 s0 hist :
+    memo = PBool true \/ memo = PStr StrLit.recursive_lit ->
+    NoDup (map call_key (dyn_log_of (evolve1d_dynamic rule store pred memo r fuel p0 s0 hist))).
+  Proof.
+    intros [-> | ->]; unfold evolve1d_dynamic.
+    - change (dispatch (PBool true)) with (Some Memo). unfold evolve_mode_dynamic.
+      destruct (evolve_dynamic [] (step_memo rule store r) pred fuel p0 (s0, [], []) hist) as [[[[pa [[sa ca] la]] oa] pla]|] eqn:E;
+        cbn [dyn_log_of map]; [|constructor].
+      assert (H0 : KM (s0, [], [])) by (unfold KM; cbn [fst snd map]; split; [constructor|intros k; reflexivity]).
+      exact (proj1 (dynamic_xinv _ _ _ [] (step_memo rule store r) pred KM (fun x c t => step_memo_K x c t) _ _ _ _ _ _ _ _ H0 E)).
+    - change (dispatch (PStr StrLit.recursive_lit)) with (Some Recursive). unfold evolve_mode_dynamic.
+      destruct (evolve_dynamic [] (step_recursive rule store r) pred fuel p0 (s0, [], []) hist) as [[[[pa [[sa ca] la]] oa] pla]|] eqn:E;
+        cbn [dyn_log_of map]; [|constructor].
+      assert (H0 : KR (s0, [], [])) by (unfold KR, LogR; cbn [fst snd map]; split; [constructor|intros k []]).
+      exact (proj1 (dynamic_xinv _ _ _ [] (step_recursive rule store r) pred KR (fun x c t => step_recursive_K x c t) _ _ _ _ _ _ _ _ H0 E)).
+  Qed.
+End AnyRule.
 
 (* ------------------------------------------------------------------ the Plain mode is C01's engine *)
 (* memoize=False of this model is Evolve1D.evolve_plain run with a logging rule: same array, for any
